@@ -482,7 +482,7 @@ static void run_prog(void) {
         switch (o->kind) {
         case 'c': one_call(ZSTD_e_continue, (size_t)o->a, (size_t)o->b); break;
         case 's': g_legacy_call = 1; one_call(ZSTD_e_continue, (size_t)o->a, (size_t)o->b); g_legacy_call = 0; break;
-        case 'N': printf("OP pool %ld\n", o->a); break;   /* done before the multithreaded context was created */
+        case 'N': printf("OP pool0 %ld\n", o->a); break;   /* done before the multithreaded context was created */
         case 'T': { size_t e; printf("OP pool %ld\n", o->a);
                     if (o->a > 0 && !g_pool) g_pool = ZSTD_createThreadPool((size_t)o->a);
                     e = ZSTD_CCtx_refThreadPool(g_cctx, o->a > 0 ? g_pool : NULL);
